@@ -259,6 +259,25 @@ func (w *world) getName(rname string) (rec, error) {
 	if len(ms) != 1 {
 		return nil, fmt.Errorf("get answered %d times", len(ms))
 	}
+	return parseGet(ms[0].Data)
+}
+
+// getParallel is getName for gets made by several goroutines at once: it waits for the response itself.
+func (w *world) getParallel(rname, inbox string) (rec, error) {
+	if n, err := w.conn.Deliver("get."+rname, inbox, nil); n != 1 || err != nil {
+		return nil, fmt.Errorf("get delivered %d times: %v", n, err)
+	}
+	for t := 0; t < 3000; t++ {
+		if ms := w.conn.PubsOn(inbox); len(ms) > 0 {
+			return parseGet(ms[0].Data)
+		}
+		time.Sleep(time.Millisecond)
+	}
+	return nil, fmt.Errorf("get not answered")
+}
+
+func parseGet(data []byte) (rec, error) {
+	ms := []struct{ Data []byte }{{data}}
 	var resp struct {
 		Result *struct {
 			Model      json.RawMessage `json:"model"`
@@ -496,7 +515,7 @@ func concurrentHistory(cfg lcfg, seed int64, nres, nev int) ([]rec, error) {
 		return nil, err
 	}
 	defer os.RemoveAll(dir)
-	w := &world{cfg: cfg, dir: dir, pattern: "res.$id", workers: 4}
+	w := &world{cfg: cfg, dir: dir, pattern: "res.$id", workers: 16}
 	if err := w.open(); err != nil {
 		return nil, err
 	}
@@ -543,6 +562,36 @@ func concurrentHistory(cfg lcfg, seed int64, nres, nev int) ([]rec, error) {
 			return nil, err
 		}
 	}
+	// all resources read at the same time, several times: every reader gets its own resource's value
+	reads := make([][]rec, nres)
+	var rwg sync.WaitGroup
+	const perRes = 250
+	for i := 0; i < nres; i++ {
+		rwg.Add(1)
+		go func(i int) {
+			defer rwg.Done()
+			// the requests are all sent before the first answer is looked at: the workers are kept busy with gets
+			// of different resources
+			for k := 0; k < perRes; k++ {
+				w.conn.Deliver(fmt.Sprintf("get.test.res.%d", i), fmt.Sprintf("inbox.par%d_%d", i, k), nil)
+			}
+			for k := 0; k < perRes; k++ {
+				inbox := fmt.Sprintf("inbox.par%d_%d", i, k)
+				for t := 0; t < 3000; t++ {
+					if ms := w.conn.PubsOn(inbox); len(ms) > 0 {
+						if r, err := parseGet(ms[0].Data); err == nil {
+							reads[i] = append(reads[i], r)
+						} else {
+							reads[i] = append(reads[i], rec{"t": "bad", "dbg": err.Error()})
+						}
+						break
+					}
+					time.Sleep(time.Millisecond)
+				}
+			}
+		}(i)
+	}
+	rwg.Wait()
 	def := w.defAbs
 	w.shut()
 	if err := w.open(); err != nil {
@@ -559,7 +608,10 @@ func concurrentHistory(cfg lcfg, seed int64, nres, nev int) ([]rec, error) {
 		if es == nil {
 			es = []rec{}
 		}
-		out = append(out, rec{"upto": 99999, "def": def, "evs": es, "last": finals[i], "reopened": reopened,
+		if reads[i] == nil {
+			reads[i] = []rec{}
+		}
+		out = append(out, rec{"upto": 99999, "def": def, "evs": es, "last": finals[i], "reopened": reopened, "reads": reads[i],
 			"dbg": fmt.Sprintf("%s seed %d: resource %d of %d changed concurrently", cfg, seed, i, nres)})
 	}
 	w.shut()
